@@ -17,7 +17,8 @@ Declined(e, tag) == IF DocumentedRefusal(e) THEN <<"ok", tag \o ":declined">> EL
 Hints(e, grp) == IF grp \in DOMAIN e.hints THEN e.hints[grp] ELSE <<>>
 
 ItfJudge(e, meaningful, wantIn, wantOut) ==
-  IF Raised(e)
+  IF ~e.intact THEN <<"violation", "itf:operand-changed">>       \* an operand, re-inspected after the call, is no longer what it was
+  ELSE IF Raised(e)
   THEN IF ~meaningful
        THEN (IF e.exc = "IncompatibleArgsError" THEN <<"ok", "itf:rejected">> ELSE <<"violation", "itf:wrong-rejection:" \o e.exc>>)
        ELSE Declined(e, "itf")
